@@ -8,11 +8,67 @@ MODELS = ['theories/Verifier.vo', 'gen/JitLogic.vo', 'theories/X86Enc.vo', 'gen/
 PROOFS = ['theories/JitLogicProofs.v', 'theories/JitEncProofs.v', 'theories/JitArmsProofs.v', 'theories/JitMulDivProofs.v', 'theories/JitMiscProofs.v', 'theories/JitFrameProofs.v', 'theories/ClMiscProofs.v', 'theories/VerifierProofs.v', 'theories/InterpProofs.v']
 ENGINE = 'jit'
 
+CL_HEADER = '''From Coq Require Import ZArith List Bool.
+From RbpfV Require Import MachInt Ebpf Cases Mem InterpDefs Stack Helpers Interp Isa ClStep ClRun.
+Import ListNotations.
+Open Scope Z_scope.
+Definition data_of (m : mem) (k : nat) : list Z := r_data (nth k m {| r_base := 0; r_data := [] |}).
+(* st: 0 = the compiled code returned v, 1 = it trapped (v = ETrap).  The model's stack lives at an address of its own. *)
+Definition check_cl (prog : list Z) (mbuff mem_ : region) (helpers : list (Z * Z)) (fuel st v : Z) (xmbuff xmem_ : list Z) : Z :=
+  let E := mk_env prog (helpers_of helpers) (fun _ => None) mbuff mem_ 0x700000000000 [] in
+  let m0 := mk_mem mbuff mem_ 0x700000000000 {| r_base := 0x7f0000000000; r_data := [] |} in
+  match cl_run (Z.to_nat fuel) E m0 with
+  | ODone r m => if (st =? 0) && (r =? v) && list_eqb (data_of m 0) xmbuff && list_eqb (data_of m 1) xmem_ then 0 else 1
+  | OErr e _ => if (st =? 1) && (e =? v) then 0 else 1
+  | _ => 1
+  end.
+'''
+
+
+def cl_model_correspondence(chk, binary, cases):
+    """the hand-written composition ClStep.cl_exec / ClRun.cl_run (what the theorems C04_step_refines / C04_run_refines speak
+    about) evaluated inside Coq against the real Cranelift-compiled code, on the raw and the mbuff VM"""
+    from checks.interp_common import parse_answer, region, HELPER_CODES
+    from vlib import zhex
+    import copy
+    sel = [c for c in cases if len(c.prog) <= 1600 and not c.ranges and all(n in HELPER_CODES for _, n in c.helpers)]
+    sel = sel[::1 if chk.tier == 'thorough' else 3]
+    runs = []
+    for k, c in enumerate(sel):
+        runs.append((c, 'raw'))
+        if k % 4 == 0 and not c.mbuff:
+            c2 = copy.copy(c)
+            c2.mbuff = bytes(range(0x40, 0x50))
+            runs.append((c2, 'mbuff'))
+    ans = [parse_answer(x) for x in vlib.harness_run(binary, [c.line(engine='cl', kind=kind) for c, kind in runs])]
+    terms, idx, outs = [], [], {}
+    for i, ((c, kind), a) in enumerate(zip(runs, ans)):
+        tag = a['raw'].split()[0].split(':')[0] + (':4' if a['raw'].startswith('SIGNAL:4') else '')
+        outs[tag] = outs.get(tag, 0) + 1
+        if a['status'] == 0 and 'L' in a:
+            memb, mbuffb, _, _ = a['L']
+            st, v = 0, a['val']
+        elif a['raw'].startswith('SIGNAL:4'):
+            memb, mbuffb, st, v = 0x600000200000, 0x600000600000, 1, 100      # ud2: the bounds check refused the access
+        else:
+            continue
+        mb = c.mbuff if kind == 'mbuff' else b''
+        terms.append('(check_cl %s %s %s %s %d %d %d %s %s)' % (
+            zhex(c.prog), region(mbuffb, mb), region(memb, c.mem), '[%s]' % '; '.join('(%d, %d)' % (i2, HELPER_CODES[n]) for i2, n in c.helpers),
+            c.budget, st, v, zhex(a['mbuff'] if st == 0 and kind == 'mbuff' else mb if st else b''), zhex(a['mem'] if st == 0 else c.mem)))
+        idx.append(i)
+    bad, errors = vlib.coq_eval('C04cl', CL_HEADER, terms, '(fun c => c)', shard_size=120)
+    if errors:
+        raise vlib.Broken('Cranelift model evaluation failed: ' + errors[0])
+    chk.cov['model_correspondence'] = {'what': 'ClRun.cl_run (vm_compute) = the compiled code, value and final packet / metadata bytes; a trap = ud2',
+                                       'compared': len(terms), 'engine_outcomes': outs, 'disagreements': len(bad)}
+    return [(runs[idx[i]], ans[idx[i]]) for i, _ in bad]
+
 
 def run(chk, engine=ENGINE, prop='C03'):
-    res = vlib.prove(chk, UNITS if prop == 'C03' else ['Opcodes', 'Codec', 'Verifier', 'ClAlu', 'ClJmp', 'ClMem', 'ClMisc', 'ClCfg', 'Clir'],
+    res = vlib.prove(chk, UNITS if prop == 'C03' else ['Opcodes', 'Codec', 'Verifier', 'Interp', 'ClAlu', 'ClJmp', 'ClMem', 'ClMisc', 'ClCfg', 'Clir'],
                      MODELS if prop == 'C03' else ['theories/ClirSem.vo', 'gen/ClAlu.vo', 'gen/ClJmp.vo', 'gen/ClMem.vo', 'gen/ClMisc.vo', 'gen/ClCfg.vo', 'theories/Verifier.vo'], prop,
-                     PROOFS if prop == 'C03' else ['theories/ClAluProofs.v', 'theories/ClJmpProofs.v', 'theories/ClMemProofs.v', 'theories/ClMiscProofs.v', 'theories/ClCfgProofs.v', 'theories/VerifierProofs.v', 'theories/InterpProofs.v'])
+                     PROOFS if prop == 'C03' else ['theories/ClAluProofs.v', 'theories/ClJmpProofs.v', 'theories/ClMemProofs.v', 'theories/ClMiscProofs.v', 'theories/ClCfgProofs.v', 'theories/ClStep.v', 'theories/ClRun.v', 'theories/VerifierProofs.v', 'theories/InterpProofs.v'])
     found = False
     if res['model_ok']:
         binary = vlib.harness_build('debug')
@@ -47,6 +103,21 @@ def run(chk, engine=ENGINE, prop='C03'):
                     if len(chk.violations) < 10:
                         chk.violation({'kind': 'counterexample', 'request': c.line(engine='cl', kind='raw'), 'answer': a[:200], 'family': c.fam,
                                        'meaning': 'a program with an eBPF-to-eBPF call was not refused by Cranelift compilation'})
+        cl_bad = []
+        if engine == 'cl':
+            try:
+                cl_bad = cl_model_correspondence(chk, binary, cases)
+            except vlib.Broken as e:
+                if res['proof_ok']:
+                    raise
+                chk.cov['model_correspondence'] = {'skipped': 'the composition model does not build on this tree: ' + str(e)[:200]}
+        if cl_bad:
+            for ((c, kind), a) in cl_bad:
+                found = True
+                if len(chk.violations) < 10:
+                    chk.violation({'kind': 'counterexample', 'request': c.line(engine='cl', kind=kind), 'engine_answer': a['raw'][:200], 'family': c.fam,
+                                   'vm_kind': kind, 'meaning': 'the Cranelift-compiled code does not do what the model of the IR (ClRun.cl_run, which '
+                                   'theorem C04_run_refines proves equal to the ISA) does on this input: tie B of the composition is broken'})
         for (c, kind, l, a, b) in diffs:
             found = True
             if len(chk.violations) < 10:
